@@ -155,9 +155,9 @@ theorem peekLoop_view (n : Nat) : ∀ (fuel : Nat) (s : BState), Inv s → s.siz
 theorem peek_view (n : Nat) (s : BState) (hi : Inv s)
     (out : Bytes) (e : Option BErr) (s' : BState) (h : peek n s = (out, e, s')) :
     Inv s' ∧ s'.size = s.size ∧
-    (e = none → out = (view s).1.take n ∧ out.length = n ∧ view s' = view s) ∧
-    (e = some .bufferFull → view s' = view s ∧ ∃ r, (view s).1 = out ++ r) ∧
-    (∀ x, e = some x → x ≠ .bufferFull → view s = (out, x) ∧ s'.err = none ∧ s'.buf = out) := by
+    (e = none → out = (view s).1.take n ∧ out.length = n ∧ view s' = view s ∧ n ≤ s.size) ∧
+    (e = some .bufferFull → n > s.size ∧ view s' = view s ∧ ∃ r, (view s).1 = out ++ r) ∧
+    (∀ x, e = some x → x ≠ .bufferFull → view s = (out, x) ∧ s'.err = none ∧ s'.buf = out ∧ out.length < n ∧ n ≤ s.size) := by
   obtain ⟨hi', hv, hs, hexit, d, hd⟩ := peekLoop_view n (s.size + 1) s hi (by omega)
   unfold peek at h
   generalize peekLoop n (s.size + 1) s = s1 at hi' hv hs hexit hd h
@@ -173,7 +173,7 @@ theorem peek_view (n : Nat) (s : BState) (hi : Inv s)
     obtain ⟨rfl, rfl, rfl⟩ := h
     refine ⟨hi', hs, ?_, ?_, ?_⟩
     · intro h0; cases h0
-    · intro _; rw [← hv]; exact ⟨rfl, hpre⟩
+    · intro _; rw [← hv]; exact ⟨by omega, rfl, hpre⟩
     · intro x hx hne; cases hx; exact absurd rfl hne
   · rw [if_neg h1] at h
     by_cases h2 : s1.buf.length < n
@@ -196,17 +196,203 @@ theorem peek_view (n : Nat) (s : BState) (hi : Inv s)
         · intro y hy _
           simp only [Option.getD_some, Option.some.injEq] at hy
           subst hy
-          exact ⟨hvx, rfl, rfl⟩
+          exact ⟨hvx, rfl, rfl, h2, by omega⟩
     · rw [if_neg h2] at h
       simp only [Prod.mk.injEq] at h
       obtain ⟨rfl, rfl, rfl⟩ := h
       obtain ⟨r, hr⟩ := hpre
       refine ⟨hi', hs, ?_, ?_, ?_⟩
       · intro _
-        refine ⟨?_, ?_, hv⟩
+        refine ⟨?_, ?_, hv, by omega⟩
         · rw [← hv, hr, List.take_append_of_le_length (by omega)]
         · rw [List.length_take]; omega
       · intro h0; cases h0
       · intro x hx; cases hx
+
+
+/-- **`Read` removes exactly what it returns**: without a condition the view
+    loses the returned bytes at its front (at least one byte); with a condition
+    the returned bytes and the condition WERE the view -/
+theorem read_view (cap : Nat) (hcap : 0 < cap) (s : BState) (hi : Inv s)
+    (d : Bytes) (e : Option BErr) (s' : BState) (h : Bufio.read cap s = (d, e, s')) :
+    (e = none → Inv s' ∧ s'.size = s.size ∧ (view s).1 = d ++ (view s').1 ∧ (view s).2 = (view s').2 ∧ d ≠ []) ∧
+    (∀ x, e = some x → view s = (d, x)) := by
+  unfold Bufio.read at h
+  rw [if_neg (by omega)] at h
+  by_cases hb : s.buf.isEmpty = true
+  · rw [if_pos hb] at h
+    have hbn : s.buf = [] := by simpa using hb
+    cases he : s.err with
+    | some x =>
+      rw [he] at h
+      simp only [Prod.mk.injEq] at h
+      obtain ⟨rfl, rfl, rfl⟩ := h
+      refine ⟨(by intro h0; cases h0), ?_⟩
+      intro y hy; cases hy
+      simp [view, he, hbn]
+    | none =>
+      rw [he] at h
+      simp only at h
+      by_cases hc : cap ≥ s.size
+      · rw [if_pos hc] at h
+        generalize hsr : srcRead cap s.src = res at h
+        obtain ⟨d0, e0, src'⟩ := res
+        obtain ⟨hp', _, hnone, hsome⟩ := srcRead_total cap hcap s.src hi.prog d0 e0 src' hsr
+        simp only [Prod.mk.injEq] at h
+        obtain ⟨rfl, rfl, rfl⟩ := h
+        cases e0 with
+        | none =>
+          obtain ⟨ht, hne⟩ := hnone rfl
+          refine ⟨?_, by intro x hx; cases hx⟩
+          intro _
+          refine ⟨{ prog := hp', fits := by simp [hbn], nofull := by simp [he] }, rfl, ?_, ?_, hne⟩
+          · simp [view, he, hbn, ht]
+          · simp [view, he, ht]
+        | some x =>
+          refine ⟨(by intro h0; cases h0), ?_⟩
+          intro y hy
+          simp only [Option.map_some, Option.some.injEq] at hy
+          subst hy
+          simp [view, he, hbn, hsome x rfl]
+      · rw [if_neg hc] at h
+        generalize hsr : srcRead s.size s.src = res at h
+        obtain ⟨d0, e0, src'⟩ := res
+        obtain ⟨hp', hlen, hnone, hsome⟩ := srcRead_total s.size (by omega) s.src hi.prog d0 e0 src' hsr
+        simp only at h
+        by_cases hd0 : d0.isEmpty = true
+        · rw [if_pos hd0] at h
+          have hd0n : d0 = [] := by simpa using hd0
+          simp only [Prod.mk.injEq] at h
+          obtain ⟨rfl, rfl, rfl⟩ := h
+          cases e0 with
+          | none => exact absurd hd0n (hnone rfl).2
+          | some x =>
+            refine ⟨(by intro h0; cases h0), ?_⟩
+            intro y hy
+            simp only [Option.map_some, Option.some.injEq] at hy
+            subst hy
+            simp [view, he, hbn, hsome x rfl, hd0n]
+        · rw [if_neg hd0] at h
+          simp only [Prod.mk.injEq] at h
+          obtain ⟨rfl, rfl, rfl⟩ := h
+          have hd0ne : d0 ≠ [] := by simpa using hd0
+          have htake : d0.take cap ≠ [] := by
+            intro h
+            have := congrArg List.length h
+            have hl0 : 0 < d0.length := List.length_pos_iff.mpr hd0ne
+            simp only [List.length_take, List.length_nil] at this
+            omega
+          refine ⟨?_, by intro x hx; cases hx⟩
+          intro _
+          refine ⟨{ prog := hp', fits := by simp only [List.length_drop]; omega, nofull := by cases e0 <;> simp }, rfl, ?_, ?_, htake⟩
+          · cases e0 with
+            | none =>
+              simp only [view, he, hbn, (hnone rfl).1, Option.map_none, List.nil_append]
+              rw [← List.append_assoc, List.take_append_drop]
+            | some x =>
+              simp only [view, he, hbn, hsome x rfl, Option.map_some, List.nil_append]
+              rw [List.take_append_drop]
+          · cases e0 with
+            | none => simp only [view, he, (hnone rfl).1, Option.map_none]
+            | some x => simp only [view, he, hsome x rfl, Option.map_some]
+  · rw [if_neg hb] at h
+    simp only [Prod.mk.injEq] at h
+    obtain ⟨rfl, rfl, rfl⟩ := h
+    have hbne : s.buf ≠ [] := by simpa using hb
+    have htake : s.buf.take cap ≠ [] := by
+      intro h
+      have := congrArg List.length h
+      have hl0 : 0 < s.buf.length := List.length_pos_iff.mpr hbne
+      simp only [List.length_take, List.length_nil] at this
+      omega
+    refine ⟨?_, by intro x hx; cases hx⟩
+    intro _
+    refine ⟨{ prog := hi.prog, fits := by have := hi.fits; simp only [List.length_drop]; omega, nofull := hi.nofull }, rfl, ?_, ?_, htake⟩
+    · unfold view
+      cases s.err with
+      | some x => simp
+      | none => simp only; rw [← List.append_assoc, List.take_append_drop]
+    · unfold view
+      cases s.err with
+      | some x => rfl
+      | none => rfl
+
+/-- **draining the reader yields exactly its view**: all bytes, in order, once,
+    and the final condition — for every read size and every fragmentation -/
+theorem drain_view (cap : Nat) (hcap : 0 < cap) : ∀ (fuel : Nat) (s : BState) (acc : Bytes), Inv s →
+    (view s).1.length + 1 ≤ fuel →
+    (drain cap fuel s acc).1 = acc ++ (view s).1 ∧ (drain cap fuel s acc).2.1 = some (view s).2 := by
+  intro fuel
+  induction fuel with
+  | zero => intro s acc _ h; omega
+  | succ fuel ih =>
+    intro s acc hi hf
+    rw [drain]
+    generalize hr : Bufio.read cap s = res
+    obtain ⟨d, e, s1⟩ := res
+    obtain ⟨hnone, hsome⟩ := read_view cap hcap s hi d e s1 hr
+    simp only
+    cases e with
+    | some x =>
+      have := hsome x rfl
+      simp only [this]
+      exact ⟨trivial, trivial⟩
+    | none =>
+      obtain ⟨hi1, _, hv1, hv2, hne⟩ := hnone rfl
+      have hl : 0 < d.length := List.length_pos_iff.mpr hne
+      have hlen : (view s).1.length = d.length + (view s1).1.length := by rw [hv1, List.length_append]
+      obtain ⟨a, b⟩ := ih s1 (acc ++ d) hi1 (by omega)
+      simp only
+      rw [a, b, hv1, hv2, List.append_assoc]
+      exact ⟨rfl, rfl⟩
+
+
+/-! ## `ClassifyStream` on the machine -/
+
+open Classify
+
+theorem inv_new (src : Source) (size : Nat) (hp : Progress src) : Inv (newReaderSize src size) :=
+  { prog := hp, fits := by simp [newReaderSize], nofull := by simp [newReaderSize] }
+
+theorem view_new (src : Source) (size : Nat) :
+    view (newReaderSize src size) = ((total src).1, .src (total src).2) := by
+  simp [view, newReaderSize]
+
+/-- `IsSaltpackBinary` when the reader can still deliver at least `size` bytes -/
+theorem binary_full (s : BState) (hi : Inv s) (hfull : s.size ≤ (view s).1.length)
+    (b : MVerdict (Int × Version)) (s' : BState) (h : isSaltpackBinary s = (b, s')) :
+    Inv s' ∧ s'.size = s.size ∧ view s' = view s ∧
+    b = .v (if s.size < minLen then .short else binarySlice ((view s).1.take minLen)) := by
+  unfold isSaltpackBinary at h
+  generalize hpk : peek minLen s = res at h
+  obtain ⟨out, e, s1⟩ := res
+  obtain ⟨hi1, hs1, hnone, hfullc, hcond⟩ := peek_view minLen s hi out e s1 hpk
+  simp only at h
+  cases e with
+  | none =>
+    obtain ⟨ho, hl, hv, hle⟩ := hnone rfl
+    simp only [Prod.mk.injEq] at h
+    obtain ⟨rfl, rfl⟩ := h
+    refine ⟨hi1, hs1, hv, ?_⟩
+    rw [if_neg (by omega), ho]
+  | some x =>
+    cases x with
+    | bufferFull =>
+      obtain ⟨hn, hv, _⟩ := hfullc rfl
+      simp only [Prod.mk.injEq] at h
+      obtain ⟨rfl, rfl⟩ := h
+      exact ⟨hi1, hs1, hv, by rw [if_pos hn]⟩
+    | src y =>
+      exfalso
+      obtain ⟨hv, _, _, hlt, hle⟩ := hcond _ rfl (by simp)
+      rw [hv] at hfull
+      simp only at hfull
+      omega
+    | noProgress =>
+      exfalso
+      obtain ⟨hv, _, _, hlt, hle⟩ := hcond _ rfl (by simp)
+      rw [hv] at hfull
+      simp only at hfull
+      omega
 
 end Saltpack.Proofs.BufioP
